@@ -1,8 +1,9 @@
 """C12 — equilibrium-range wind estimate: closed form and direction conventions.
 
 equilibrium_range_values is under contract for method="peak" and for method="mean".  The mean method is proved for
-number_of_bins in {2, 3} (the window is unrolled), symbolic spectrum length and batch size, symbolic fmax, NaN-free spectra whose
-compared window means are non-zero:
+number_of_bins in {1, 2, 3, 4, 20} in the quick tier (20 is the default of every caller) and for every number_of_bins from 1 to 20 in
+the thorough tier (the window is unrolled per instance; a symbolic number_of_bins is not supported: see NOTES-C12.md), symbolic spectrum
+length and batch size, symbolic fmax, NaN-free spectra whose compared window means are non-zero:
   from the code (the statement is silent on how the range is found):
     search range  lo = first argmin |f - 0|, hi = min(max(lo + 1, first argmin |f - fmax| + 1 - nb), nf - nb); ValueError iff nf = 0 or nf - nb < lo + 1
     measure       V(i) = mean_k (S_k - m)^2 / m^2 over the nb bins from i, S = E f^power, m their mean   (loop invariant: variance[:, c] = V(lo + c))
@@ -12,7 +13,7 @@ compared window means are non-zero:
                   the measure was taken over the unclipped window (recorded as an observation, the statement does not speak about it)
   from the statement:
     on a spectrum that is exactly c f^-power over the searched band [lo, nf) the level is c.
-Not covered by the proof (bounded check `mean_method_and_scaling` / nothing): the default number_of_bins = 20, spectra with NaN bins (the
+Not covered by the proof (bounded check `mean_method_and_scaling` / nothing): number_of_bins > 20, spectra with NaN bins (the
 measure skips them, the accumulation does not), windows whose mean is 0 (0/0), partial c f^-4 ranges (bounded)."""
 from pyvc.api import *
 from pyvc.run import Lemma, Bounded
@@ -244,7 +245,7 @@ u10 = Contract(
 )
 
 def _bounded_mean_and_reduction(tier, seed):
-    """default number_of_bins = 20 (the proof instances unroll 2 and 3 bins), partial c f^-4 ranges, scaling, both methods"""
+    """default number_of_bins = 20 (also a proof instance now), partial c f^-4 ranges, scaling, both methods"""
     import numpy as np
     from ocean_science_utilities.wavespectra.spectrum import create_1d_spectrum, create_2d_spectrum
     from ocean_science_utilities.wavephysics.windestimate import equilibrium_range_values, friction_velocity as fvf, estimate_u10_from_spectrum as u10f
@@ -462,6 +463,10 @@ def _mean_kw(s, nb, fmax):
 def _wit_mean_random(nb):
     import numpy as np
     f = np.array([0.0, 0.03, 0.05, 0.08, 0.1, 0.15, 0.22, 0.3, 0.45, 0.5, 0.8])
+    if nb == 1:
+        f[0] = 0.01     # a one-bin window at f = 0 has mean 0 (0/0 in the measure): outside the precondition
+    if nb > 3:          # room for several windows of nb bins below fmax
+        f = np.concatenate([[0.0], 0.01 + 0.5 * np.arange(1, nb + 9) / (nb + 6)])
     E = np.random.default_rng(21 + nb).random((3, len(f))) + 0.01
     return _mean_kw(_mean_spectrum(E, f), nb, 0.5)
 
@@ -469,9 +474,10 @@ def _wit_mean_random(nb):
 def _wit_mean_clipped(nb):
     """the flattest window is the last one compared and starts above nf - 2 nb: the code's clip (nf - 1 - nb) repeats a bin"""
     import numpy as np
-    f = np.linspace(0.05, 0.6, 12)
-    E = (np.random.default_rng(3).random((2, 12)) + 0.5) * f[None, :] ** -4.0
-    E[:, 12 - nb - 1:] = 2.5e-4 * f[None, 12 - nb - 1:] ** -4.0          # exactly flat E f^4 on the last nb + 1 bins
+    N = max(12, 2 * nb + 4)
+    f = np.linspace(0.05, 0.6, N)
+    E = (np.random.default_rng(3).random((2, N)) + 0.5) * f[None, :] ** -4.0
+    E[:, N - nb - 1:] = 2.5e-4 * f[None, N - nb - 1:] ** -4.0          # exactly flat E f^4 on the last nb + 1 bins
     return _mean_kw(_mean_spectrum(E, f), nb, 5.0)
 
 
@@ -479,7 +485,7 @@ def _wit_mean_power_law(nb):
     """exact c f^-4 in floating point (frequencies and levels are powers of two): every window measure is exactly 0, the first
     window is selected by the code and by the executable twin alike"""
     import numpy as np
-    f = 2.0 ** np.arange(-6, 3)
+    f = 2.0 ** np.arange(-6, -6 + max(9, nb + 3))
     c = np.array([2.0 ** -13, 3 * 2.0 ** -14])
     return _mean_kw(_mean_spectrum(c[:, None] / f[None, :] ** 4, f), nb, 0.5)
 
@@ -495,7 +501,7 @@ def _mean_samples(rng, tier):
     out = []
     for _ in range(20 if tier == "quick" else 200):
         nb = int(rng.choice(MEAN_BINS))
-        nf = int(rng.integers(nb + 1, 16))
+        nf = int(rng.integers(nb + 1, max(16, nb + 8)))
         f = np.cumsum(rng.uniform(0.01, 0.08, nf)) + (0.0 if rng.random() < 0.3 else rng.uniform(0.0, 0.05)) - 0.01
         f[0] = max(f[0], 0.0)
         E = (rng.random((int(rng.integers(1, 4)), nf)) + 0.05) * 10 ** rng.uniform(-4, 0)
@@ -505,7 +511,12 @@ def _mean_samples(rng, tier):
     return out
 
 
-MEAN_BINS = (2, 3)
+import os as _os
+TIERED = True
+# number_of_bins instances by tier (the window is unrolled: obligation size grows with nb); C12_BINS="5 8" overrides (debugging)
+MEAN_BINS = (1, 2, 3, 4, 20) if _os.environ.get("VERIF_TIER", "quick") != "thorough" else tuple(range(1, 21))
+if _os.environ.get("C12_BINS"):
+    MEAN_BINS = tuple(int(x) for x in _os.environ["C12_BINS"].split())
 _only = lambda nb: {f"bins{nb}"}
 equilibrium_mean = Contract(
     W + "equilibrium_range_values", label="equilibrium_range_values.mean", instances=[(f"bins{nb}", _p_eq_mean(nb)) for nb in MEAN_BINS],
@@ -525,11 +536,11 @@ equilibrium_mean = Contract(
 CONTRACTS = [equilibrium_peak, friction_velocity, u10, equilibrium_mean]
 TRUSTED = ["xarray library contracts (argmax, pointwise isel, Dataset construction / assign)", "log, arctan2 uninterpreted (A-table ranges)",
            "the 2D input is reduced by as_frequency_spectrum (contract in C02) before friction_velocity is called",
-           "mean method: number_of_bins in {2, 3}, spectra without NaN, every compared window mean non-zero (requires); real division, no inf / 0/0",
+           "mean method: number_of_bins in {1, 2, 3, 4, 20} (quick) / 1..20 (thorough), spectra without NaN, every compared window mean non-zero (requires); real division, no inf / 0/0",
            "DataArray[..., lo:hi] is the contiguous part lo..hi-1 of the last dimension (bounds in range: obligation); DataArray.mean(dim) = sum of the values present / their number",
            "np.argmin(axis=-1) is the first index of the row minimum; np.clip(x, a_min, a_max); x[i0, i1] with equal-length integer arrays gathers pointwise; "
            "x[arange(len(x))] += v is x[:] += v (the index array is proved to be the identity); np.unravel_index for a 1-d shape is the identity (indices in range: obligation)"]
 EXPLANATION = ("peak method: E_eq proved to be the maximum of fill0(E f^4) and the moments taken at its first maximiser; u* = 8 pi^3 E_eq / (4 g I beta), "
-               "direction = atan2(b1,a1) mod 360 in [0,360); U10 from the log law with Charnock roughness; (270 - dir) mod 360 convention; mean method (2 and 3 bins, any spectrum "
+               "direction = atan2(b1,a1) mod 360 in [0,360); U10 from the log law with Charnock roughness; (270 - dir) mod 360 convention; mean method (number_of_bins 1, 2, 3, 4 and the default 20 in the quick tier, every value 1..20 in the thorough tier; any spectrum "
                "length): search range, window measure (loop invariant), E_eq / a1 / b1 = means over the clipped minimum-variance window, E_eq = c on an exact c f^-power band; "
-               "20 bins and partial ranges stay a bounded check")
+               "a symbolic number_of_bins, partial ranges and the scaling law stay a bounded check")
